@@ -7,7 +7,7 @@
    over the non-ignored entries (C07) differs, or the folder is gone.  That the hashes recorded by create are the ones
    recomputed on an unchanged tree is the lockstep correspondence's job (create and verify -dh call the same
    `dirhash`). *)
-From MHL Require Import Model.Commands Gen.Generated Proofs.BaseFacts Proofs.VerifyFacts.
+From MHL Require Import Model.Commands Gen.Generated Proofs.BaseFacts Proofs.CodecFacts Proofs.DirHashFacts Proofs.VerifyFacts Proofs.SensFacts.
 
 Theorem C09_never_aborts : forall Hb matches C cdig t f co ro ip ifl,
   exists c, o_outcome (snd (verify_dh Hb matches C cdig t f co ro ip ifl)) = Exit c.
@@ -38,3 +38,13 @@ Theorem C09_entry_fails_iff_hash_differs : forall Hb matches C spec fmts t p es 
             end.
 Proof. exact dh_failures_spec. Qed.
 Print Assumptions C09_entry_fails_iff_hash_differs.
+
+(* detection of a content change: an entry whose content hash was recorded from the tree before a one-file content
+   change (at any depth below the folder) fails afterwards -- or a collision of the primitive is exhibited *)
+Theorem C09_content_change_fails_entry : forall Hb matches C, (forall f b, Forall is_byte (Hb f b) /\ length (Hb f b) = width f) ->
+  forall spec f p (d d' : node C) e c s cs',
+  differ1 (prune matches C spec p d) (prune matches C spec p d') ->
+  dirhash Hb matches C spec f p d = Some (c, s) -> dirhash Hb matches C spec f p d' = Some cs' ->
+  e_digest e = c -> dh_entry_ok e cs' = false \/ collision Hb f.
+Proof. intros Hb matches C Hw. exact (changed_entry_fails Hb matches C Hw). Qed.
+Print Assumptions C09_content_change_fails_entry.
